@@ -533,7 +533,7 @@ func (y *c15Sys) Letters(s *c15State) []engine.Letter {
 		ls = append(ls, engine.Letter{Name: fmt.Sprintf("Update(ts=t%d,all-sign-noBTC)", i+1), Data: c15Update{t, "noBTC"}})
 	}
 	for _, dh := range []int64{-1, 0, 5} {
-		for _, cl := range []string{c15Client, "07-tendermint-9", "07-tendermint-10", ""} {
+		for _, cl := range []string{c15Client, "07-tendermint-9", "07-tendermint-10", "07-tendermint-", "07-tendermint-00", ""} { // incl. a proper prefix and an extension of the configured id
 			for _, set := range []string{y.initial, "V'"} {
 				ls = append(ls, engine.Letter{Name: fmt.Sprintf("ValsetRefresh(height%+d,client=%q,set=%s)", dh, cl, set), Data: c15Refresh{dh, cl, set}})
 			}
